@@ -23,7 +23,7 @@ From IastRw Require Import Sem P_Sem.
 
 (** For every world -- every way of answering [+], property reads and calls, and every way the user
     variables may change after each interaction -- every set of instrumented method names, and every
-    source expression built from string literals, variables, [+], calls, method calls with no or one
+    source expression built from string literals, variables, property reads [o.k], [+], calls, method calls with no or one
     argument -- plain and optional ([o?.m()], [o?.m(a)]: a chain of one optional link, rewritten into a null guard) --,
     compound assignments [x += e] and [o.k += e], template literals with one or two substitutions, and parentheses:
     the rewritten expression yields the same outcome (value or exception) and the same history of
